@@ -25,8 +25,6 @@ Qed.
 Lemma resolve_file : forall f p b, fs_lookup f p = Some b -> sort_str (resolve f p) = [p].
 Proof. intros f p b H. unfold resolve. rewrite (fs_lookup_isfile f p b H). reflexivity. Qed.
 
-Definition no_cr (s : str) : Prop := Forall (fun c => c <> 13%N) s.
-
 Section MoreReaders.
 Variable compress : codec -> bytes -> bytes.
 Variable decompress : codec -> bytes -> option bytes.
@@ -67,52 +65,38 @@ Proof.
   rewrite map_map. cbn [fst]. rewrite map_id. apply sort_is_sorted.
 Qed.
 
-Lemma load_text_written : forall f n s, scalar_str s -> no_cr s ->
+Lemma load_text_written : forall f n s, scalar_str s ->
   fs_lookup f n = Some (enc compress (get_codec n) (utf8_encode s)) -> load_text decompress f n = Ok s.
 Proof.
-  intros f n s Hs Hc Hl. unfold load_text.
+  intros f n s Hs Hl. unfold load_text.
   rewrite (load_written compress decompress codec_roundtrip f n _ Hl). cbn [res_map].
-  rewrite utf8_roundtrip by exact Hs. rewrite unl_no_cr by exact Hc. reflexivity.
+  rewrite utf8_roundtrip by exact Hs. reflexivity.
 Qed.
 
-(* every resolved file holds (compressed by the codec of its name) the utf8 encoding of a text without
-   carriage returns: the result is exactly the (path, text) pairs, in path order *)
+(* every resolved file holds (compressed by the codec of its name) the utf8 encoding of a text:
+   the result is exactly the (path, text) pairs, in path order -- carriage returns included *)
 Theorem whole_text_files_content : forall f expr minP (txt : path -> str),
   (forall n, In n (sort_str (resolve f expr)) ->
-     scalar_str (txt n) /\ no_cr (txt n) /\
+     scalar_str (txt n) /\
      fs_lookup f n = Some (enc compress (get_codec n) (utf8_encode (txt n)))) ->
   exists pss, whole_text_files decompress f expr minP = Ok pss /\
     concat pss = map (fun n => (n, txt n)) (sort_str (resolve f expr)).
 Proof.
   intros f expr minP txt H.
   destruct (whole_text_files_spec f expr minP txt) as [pss [Hr [Hc _]]].
-  { intros n Hn. destruct (H n Hn) as [Hs [Hcr Hl]]. apply load_text_written; assumption. }
+  { intros n Hn. destruct (H n Hn) as [Hs Hl]. apply load_text_written; assumption. }
   exists pss. auto.
 Qed.
 
-Definition whole_text_full_statement : Prop :=
-  forall f p s minP, scalar_str s ->
-    fs_lookup f p = Some (enc compress (get_codec p) (utf8_encode s)) ->
-    exists pss, whole_text_files decompress f p minP = Ok pss /\ concat pss = [(p, s)].
-
-Theorem whole_text_file_partial : forall f p s minP, scalar_str s -> no_cr s ->
+(* one file: the value is the file's full decoded content, keyed by its path *)
+Theorem whole_text_file : forall f p s minP, scalar_str s ->
   fs_lookup f p = Some (enc compress (get_codec p) (utf8_encode s)) ->
   exists pss, whole_text_files decompress f p minP = Ok pss /\ concat pss = [(p, s)].
 Proof.
-  intros f p s minP Hs Hc Hl.
+  intros f p s minP Hs Hl.
   destruct (whole_text_files_content f p minP (fun _ => s)) as [pss [Hr Hcc]].
   { rewrite (resolve_file f p _ Hl). intros n [<-|[]]. auto. }
   exists pss. split; [exact Hr|]. rewrite Hcc, (resolve_file f p _ Hl). reflexivity.
-Qed.
-
-(* "a\r\nb" stored in the file w comes back as "a\nb" *)
-Theorem whole_text_refuted : ~ whole_text_full_statement.
-Proof.
-  intros H.
-  destruct (H [([119%N], [97; 13; 10; 98]%N)] [119%N] [97; 13; 10; 98]%N None) as [pss [Hr Hc]].
-  - repeat constructor.
-  - reflexivity.
-  - vm_compute in Hr. injection Hr as <-. vm_compute in Hc. discriminate.
 Qed.
 
 (* ---------- binaryRecords on one file *)
